@@ -8,6 +8,8 @@ import (
 	"flag"
 	"fmt"
 	"os"
+	"os/exec"
+	"strings"
 	"sync"
 	"sync/atomic"
 
@@ -17,8 +19,37 @@ import (
 func main() {
 	repeats := flag.Int("repeats", 20, "repetitions per operation pair")
 	only := flag.String("scope", "", "run a single scope")
+	cold := flag.Bool("cold", false, "cold-start pass of one scope (used by the parent on itself)")
 	flag.Parse()
+	if *cold {
+		os.Exit(coldPass(*only))
+	}
 	pairs, runs, mismatches := 0, 0, 0
+	// cold-start pass: one FRESH process per scope in which 8 goroutines build the shared values
+	// and run every operation from a cold start, so that lazily filled package-level state
+	// (caches) is first touched concurrently; a sequential warm-up would hide it
+	coldRuns := 0
+	for _, sc := range scen.All() {
+		if *only != "" && sc.Scope != *only {
+			continue
+		}
+		cmd := exec.Command(os.Args[0], "-cold", "-scope", sc.Scope)
+		cmd.Env = os.Environ()
+		out, err := cmd.CombinedOutput()
+		coldRuns++
+		if err != nil {
+			fmt.Print(string(out))
+			code := 3
+			if ee, ok := err.(*exec.ExitError); ok {
+				code = ee.ExitCode()
+			}
+			if strings.Contains(string(out), "DATA RACE") {
+				code = 66
+			}
+			fmt.Printf("vrace: cold pass of scope %s failed (exit %d)\n", sc.Scope, code)
+			os.Exit(code)
+		}
+	}
 	var many int64
 	for _, sc := range scen.All() {
 		if *only != "" && sc.Scope != *only {
@@ -75,8 +106,55 @@ func main() {
 		}
 	}
 	mismatches += int(atomic.LoadInt64(&many))
-	fmt.Printf("vrace: pairs=%d runs=%d mismatches=%d\n", pairs, runs, mismatches)
+	fmt.Printf("vrace: cold_scopes=%d pairs=%d runs=%d mismatches=%d\n", coldRuns, pairs, runs, mismatches)
 	if mismatches > 0 {
 		os.Exit(3)
 	}
+}
+
+// coldPass: no sequential warm-up. 8 goroutines each build their own shared values and run every
+// operation; the sequential results are computed only afterwards.
+func coldPass(scope string) int {
+	sc, ok := scen.ByScope(scope)
+	if !ok {
+		fmt.Println("vrace: unknown scope", scope)
+		return 2
+	}
+	const G = 8
+	results := make([][]string, G)
+	var wg sync.WaitGroup
+	start := make(chan struct{})
+	for g := 0; g < G; g++ {
+		wg.Add(1)
+		g := g
+		go func() {
+			defer wg.Done()
+			<-start
+			sh := sc.Setup()
+			out := make([]string, len(sc.Ops))
+			for i, op := range sc.Ops {
+				out[i] = scen.SafeRun(op, sh)
+			}
+			results[g] = out
+		}()
+	}
+	close(start)
+	wg.Wait()
+	sh := sc.Setup()
+	bad := 0
+	for i, op := range sc.Ops {
+		want := scen.SafeRun(op, sh)
+		for g := 0; g < G; g++ {
+			if results[g][i] != want {
+				bad++
+				if bad <= 5 {
+					fmt.Printf("MISMATCH (cold) scope=%s op=%q got=%q want=%q\n", scope, op.Name, results[g][i], want)
+				}
+			}
+		}
+	}
+	if bad > 0 {
+		return 3
+	}
+	return 0
 }
